@@ -115,30 +115,55 @@ func (c *Ctx) staticClosure(root *ssa.Function, depth int) map[*ssa.Function]boo
 	return out
 }
 
-// acceptsUnder: some success return of fn is reachable under the valuation (path-sensitive).
-func acceptsUnder(fn *ssa.Function, val map[string]int64) bool {
+// returnOutcomes: whether fn can return a nil error / a non-nil error under the valuation (path-sensitive). A return
+// that yields a result variable (a phi in the return block) is judged per incoming value actually taken.
+func returnOutcomes(fn *ssa.Function, val map[string]int64) (accept, reject bool) {
 	reach := psReachVal(fn, []*ssa.BasicBlock{fn.Blocks[0]}, nil, val)
-	for _, r := range successReturns(fn) {
-		if reach[r.Block()] {
-			return true
+	edges := lastPsEdges
+	idx := errorResultIndex(fn)
+	classify := func(v ssa.Value, at *ssa.BasicBlock) {
+		switch {
+		case idx < 0 || isNilConst(v):
+			accept = true
+		case definitelyNonNilErr(v, at, 0):
+			reject = true
+		default:
+			accept = true // may be nil (a delegated verdict)
 		}
 	}
-	return false
+	for _, b := range fn.Blocks {
+		r, ok := b.Instrs[len(b.Instrs)-1].(*ssa.Return)
+		if !ok || !reach[b] {
+			continue
+		}
+		if idx < 0 || idx >= len(r.Results) {
+			accept = true
+			continue
+		}
+		rv := returnedValue(r, idx)
+		if ph, isPhi := rv.(*ssa.Phi); isPhi && ph.Block() == b {
+			for i, e := range ph.Edges {
+				if edges[[2]*ssa.BasicBlock{b.Preds[i], b}] {
+					classify(e, b.Preds[i])
+				}
+			}
+			continue
+		}
+		classify(rv, b)
+	}
+	return
+}
+
+// acceptsUnder: some success return of fn is reachable under the valuation (path-sensitive).
+func acceptsUnder(fn *ssa.Function, val map[string]int64) bool {
+	a, _ := returnOutcomes(fn, val)
+	return a
 }
 
 // rejectsUnder: some non-success return is reachable under the valuation.
 func rejectsUnder(fn *ssa.Function, val map[string]int64) bool {
-	reach := psReachVal(fn, []*ssa.BasicBlock{fn.Blocks[0]}, nil, val)
-	succ := map[ssa.Instruction]bool{}
-	for _, r := range successReturns(fn) {
-		succ[r] = true
-	}
-	for _, b := range fn.Blocks {
-		if r, ok := b.Instrs[len(b.Instrs)-1].(*ssa.Return); ok && reach[b] && !succ[r] {
-			return true
-		}
-	}
-	return false
+	_, r := returnOutcomes(fn, val)
+	return r
 }
 
 // ruleVerdict evaluates fn under val, first summarising static callees that receive the same leading parameters
